@@ -31,6 +31,8 @@ REVIEWED_RAISES = {
     '_signatures:UpgradedAnnotation.source_value|raise:NotImplementedError': 'abstract method',
 }
 
+REVIEWED_CONSTRUCTS = dict((k.split('|', 1)[1], v) for k, v in REVIEWED_RAISES.items() if 'AssertionError(' in k or 'NotImplementedError' in k)
+
 _shared = {}
 
 
@@ -79,8 +81,10 @@ def rule_explicit_raises(check, rule):
             v = is_valueerror(es, x.cls)
             if v is True:
                 check.holds(rule, st, '%s may escape %s(): a ValueError' % (x.cls.split(':')[-1], op.split(':')[-1]), key=key)
-            elif x.origin in REVIEWED_RAISES:
-                check.holds(rule, st, '%s may escape %s(): reviewed (%s)' % (x.cls, op.split(':')[-1], REVIEWED_RAISES[x.origin]), key=key)
+            elif x.origin in REVIEWED_RAISES or x.origin.split('|', 1)[-1] in REVIEWED_CONSTRUCTS:
+                # (a reviewed raise keeps its review when it moves into another function: the key is the construct)
+                why_ = REVIEWED_RAISES.get(x.origin) or REVIEWED_CONSTRUCTS[x.origin.split('|', 1)[-1]]
+                check.holds(rule, st, '%s may escape %s(): reviewed (%s)' % (x.cls, op.split(':')[-1], why_), key=key)
             elif v is None:
                 check.inconclusive(rule, st, 'class of the exception raised here is not resolved: %s' % x.origin, key=key)
             else:
